@@ -56,6 +56,12 @@ mod send {
             {
                 waker.wake();
             }
+            // everything written has been acknowledged: a pending flush completes
+            if self.sndbuf.is_all_rcvd()
+                && let Some(waker) = self.flush_waker.take()
+            {
+                waker.wake();
+            }
         }
 
         fn may_loss_data(&mut self, crypto_frame: &CryptoFrame) {
